@@ -7,6 +7,8 @@ Events: [t_ms, kind, port, …]
   lws  p v        the load-time direct write entered write_value    lwe p ok
   rs   p flag     read_value entered                            re  p      … and left
   ldone p         load() of the port returned
+  trset p k       the transform_write attribute of port p became TRANSFORMS[k] (0 = cleared)   ("dyn" ports only)
+  tev  p i k      submission #i starts evaluating write transform k     tend p i   … and the evaluation ended
 subs[p][i] = {'v', 'res': ok | err | full | cancelled | None, 'origin'}
 api_log = [port, op id, 'ok' | '<http status>'] ; subs[p][i]['op'] = id of the scripted op that made the submission
 """
@@ -14,8 +16,16 @@ api_log = [port, op id, 'ok' | '<http status>'] ; subs[p][i]['op'] = id of the s
 
 # Static write transforms chosen by the harness (index = 'tr' of the port definition). `$` is the port's own value.
 # 4 is lazy: the two branches suspend a different number of times; 5 fails (division by zero) for the value 105.
+# 6-8 are the transforms of the "dyn" ports, whose transform_write attribute is set / changed / cleared by the script
+# between and during submissions: C14T<k>(x) is an observer function registered by the harness (it logs `tev`/`tend` and
+# evaluates x like any function: arguments gathered); 6 suspends long (nested), 7 short, 8 is lazy. Their images and
+# the untransformed values (101 … 400) are pairwise disjoint, so the driver value tells which submission it is.
 TRANSFORMS = [None, '$', 'MUL($, 10)', 'ADD($, 1000)', 'IF(GT($, 150), $, SUB(0, $))',
-              'IF(EQ($, 105), DIV(1, 0), MUL($, 2))']
+              'IF(EQ($, 105), DIV(1, 0), MUL($, 2))',
+              'C14T6(ADD(ADD(ADD(MUL($, 10), 0), 0), 0))', 'C14T7(ADD($, 5000))',
+              'C14T8(IF(GT($, 150), ADD($, 20000), SUB(0, $)))']
+DYN_TRANSFORMS = [0, 6, 7, 8]
+LAZY_TRANSFORMS = (4, 5, 8)
 
 
 def xform(tr, v):
@@ -30,6 +40,12 @@ def xform(tr, v):
         return v if v > 150 else -v
     if tr == 5:
         return v * 2          # (105 is refused by the transform: never a submission)
+    if tr == 6:
+        return v * 10
+    if tr == 7:
+        return v + 5000
+    if tr == 8:
+        return v + 20000 if v > 150 else -v
     raise ValueError(tr)
 
 
@@ -37,7 +53,8 @@ def port_cap(case, j):
     """Queue capacity of port j (0 = the live default). Ports with a function transform keep the default capacity:
     their enqueue happens some loop iterations after the observable call, so only ORDER is checked there, not the
     exact instant of a drop."""
-    return 0 if case['ports'][j]['tr'] >= 2 else case['cap']
+    pd = case['ports'][j]
+    return 0 if (pd['tr'] >= 2 or pd.get('dyn')) else case['cap']
 
 
 def same(a, b):
@@ -68,6 +85,15 @@ def check_trace(case, caps, events, subs, api_log):
     started = [[] for _ in range(n)]
     maxdepth = [0] * n
     kinds = [[] for _ in range(n)]
+    # "dyn" ports: the transform_write attribute changes during the scenario. A submission may be transformed by any
+    # transform that was in effect at some moment while it was pending (the property fixes the ORDER of the values,
+    # not the moment at which the attribute is read): cand[p][i] = those transforms
+    curtr = [pd['tr'] for pd in case['ports']]
+    cand = [{} for _ in range(n)]
+    evaluating = [set() for _ in range(n)]
+
+    def wants(p, i):
+        return [xform(k, subs[p][i]['v']) for k in sorted(cand[p].get(i) or {case['ports'][p]['tr']})]
 
     def res(p, i):
         return subs[p][i]['res']
@@ -79,7 +105,21 @@ def check_trace(case, caps, events, subs, api_log):
             continue
         p = ev[2]
         kinds[p].append(kind)
-        if kind == 'rs':
+        if kind == 'trset':
+            curtr[p] = ev[3]
+            tags.add('dyn:trset')
+            for i in pend[p]:
+                cand[p][i].add(ev[3])
+            if pend[p]:
+                tags.add('dyn:trset-while-pending')
+            if evaluating[p]:
+                tags.add('dyn:trset-during-eval' + ('-cleared' if ev[3] == 0 else ''))
+        elif kind == 'tev':
+            evaluating[p].add(ev[3])
+            tags.add(f'dyn:eval-tr{ev[4]}')
+        elif kind == 'tend':
+            evaluating[p].discard(ev[3])
+        elif kind == 'rs':
             if rin[p] > 0:
                 bad(f't={t}ms port {p}: read_value entered while a previous read of the port is still running')
             rin[p] += 1
@@ -109,12 +149,12 @@ def check_trace(case, caps, events, subs, api_log):
             started[p].append(h)
             if res(p, h) == 'full':
                 bad(f't={t}ms port {p}: submission #{h} was written although its submitter was told queue-full')
-            tr = case['ports'][p]['tr']
-            want = xform(tr, subs[p][h]['v'])
-            if not same(want, ev[3]):
-                later = [i for i in q if same(xform(tr, subs[p][i]['v']), ev[3])]
+            want = wants(p, h)
+            if not any(same(w, ev[3]) for w in want):
+                later = [i for i in q if any(same(w, ev[3]) for w in wants(p, i))]
                 bad(f't={t}ms port {p}: write_value({ev[3]}) entered, but the oldest pending submission is #{h} '
-                    f'with value {want}' + (f' (the value of the later submission #{later[0]})' if later else ''))
+                    f'with value {want[0] if len(want) == 1 else " or ".join(map(str, want))}'
+                    + (f' (the value of the later submission #{later[0]})' if later else ''))
         elif kind in ('we', 'lwe'):
             win[p] -= 1
             if kind == 'lwe':
@@ -134,6 +174,11 @@ def check_trace(case, caps, events, subs, api_log):
             i = ev[3]
             q = pend[p]
             cap = caps[p]
+            cand[p][i] = {curtr[p]}
+            if case['ports'][p].get('dyn'):
+                tags.add('dyn:submit')
+                if q:
+                    tags.add('dyn:burst')
             if case['ports'][p]['tr'] >= 2:
                 tags.add('fn-transform-submit')
                 if subs[p][i]['v'] is None:
@@ -200,9 +245,10 @@ def check_trace(case, caps, events, subs, api_log):
     tags.add('depth:' + ('0-1' if md <= 1 else '2-4' if md <= 4 else '>4'))
     if any('rs' in k for k in kinds):
         tags.add('reads')
-    nontrivial = md >= 2 or 'dropped' in tags or 'submit-during-load-write' in tags
+    nontrivial = md >= 2 or 'dropped' in tags or 'submit-during-load-write' in tags or 'dyn:trset-while-pending' in tags
     key = None
     if nontrivial:
-        code = {'rs': 'r', 're': 'R', 'ws': 'w', 'we': 'W', 'lws': 'l', 'lwe': 'L', 'sub': 'S', 'ldone': 'd'}
+        code = {'rs': 'r', 're': 'R', 'ws': 'w', 'we': 'W', 'lws': 'l', 'lwe': 'L', 'sub': 'S', 'ldone': 'd',
+                'trset': 'T', 'tev': 'e', 'tend': 'E'}
         key = repr([''.join(code.get(k, '?') for k in ks) for ks in kinds])[:4000]
     return fail, tags, key
